@@ -1,5 +1,6 @@
 """C10  Field paths resolve to exactly the addressed value."""
 import itertools
+import re
 
 import lib
 from lib import D, I, U, rule_text
@@ -119,7 +120,7 @@ def run(ck):
         cases.append({"k": "find", "id": ck.new_id(), "doc": D(doc), "keys": keys, "_doc": doc})
     # arbitrary key strings (totality)
     alpha = ["a", "b", ".", "[", "]", "0", "1", "+", "-", " ", "é", "9", "c"]
-    weird = ["", ".", "..", "a.", ".a", "a..b", "a[", "a]", "a[]", "a[0", "a[0]]", "a[[0]", "a[0][1]", "a[+1]",
+    weird = ["", ".", "..", "a.", ".a", "a..b", "a[", "a]", "a[]", "a[0", "a[0]]", "a[[0]", "a[0][1]", "a[0][0]", "a[1][0]", "a[0][9]", "a[0][1][2]", "a[0][]", "a[+1]",
              "a[-1]", "a[ 1]", "a[18446744073709551615]", "a[18446744073709551616]", "a[00]", "[0]", "a.[0]",
              "a[0].b", "a]b[", "é[0]", "a[0]é]", "a[1]x]", "a[1]]", "a[1]0]", "a]b[1]", "a]b[0]", "b.a[1]]", "a[0]].b", "a[1]].b", "a]b"]
     for _ in range(3000 if thorough else 600):
@@ -186,6 +187,13 @@ def run(ck):
         for key, r in zip(weird, res):
             evals += 1
             ck.count("find:arbitrary_key")
+            if re.match(r"^[a-z]*\[[0-9]+\](\[[0-9]*\])+$", key) and unparse(r) != "(none)":
+                # more than one index in a segment is not a path (D37, repaired): missing, never the first index
+                if c["id"] not in direct_failed:
+                    ck.violation({"property": "C10", "kind": "direct", "what": "a segment with more than one index resolved to a value (fabricated from a shorter path)",
+                                  "doc": c["doc"], "key": key, "crate": unparse(r),
+                                  "replay_case": {"k": "find", "id": 1, "doc": c["doc"], "keys": [key]}})
+                direct_failed.add(c["id"])
             if unparse(r) == "(panic)":
                 if c["id"] not in direct_failed:
                     ck.violation({"property": "C10", "kind": "direct", "what": "Object::find panicked",
